@@ -236,6 +236,29 @@ def _create(cfg):
     return [({"kind": "client-create", "what": e}, {"config": list(cfg)}) for e in errs]
 
 
+def _env_case(verb):
+    """The README's switch for the synchronisation mode is the environment variable USE_MULTIPROCESSING, read when a
+    store is initialised.  A client call (without -knbvm) must leave it as the operator set it, so that the store it
+    opens - and any store opened later in the process - is in the requested mode."""
+    from .. import env
+    env.install()  # Manager().list() etc. become in-process shims: no server processes are spawned
+    errs = []
+    rc = os.path.join(common.scratch(), "c20-env")
+    restore(rc, BASE)
+    for setting in ("True", "False"):
+        os.environ["USE_MULTIPROCESSING"] = setting
+        try:
+            argv = [rc, "-" + verb, "-pid=held"] + (["-algo=md5"] if verb == "getchecksum" else []) + \
+                (["-path=" + INP["doc2"]] if verb == "storemetadata" else [])
+            run_client(argv)
+            if os.environ.get("USE_MULTIPROCESSING") != setting:
+                errs.append("client call changed USE_MULTIPROCESSING from %s to %s" % (
+                    setting, os.environ.get("USE_MULTIPROCESSING")))
+        finally:
+            os.environ.pop("USE_MULTIPROCESSING", None)
+    return [({"kind": "client-env", "verb": verb, "what": e}, {"verb": verb}) for e in errs]
+
+
 BASE = None
 
 
@@ -250,6 +273,10 @@ def main(tier):
     for verb, opts, outs, viol in pmap(_case, cs, chunksize=8):
         n += 1
         classes.add((verb, tuple(opts), outs))
+        for sig, det in viol:
+            rep.violation(sig, det)
+    for viol in pmap(_env_case, ["getchecksum", "retrieveobject", "storemetadata", "retrievemetadata"]):
+        n += 1
         for sig, det in viol:
             rep.violation(sig, det)
     grid = list(itertools.product((1, 3), (1, 2), list(STORE_ALGOS), (NS, "ns://other")))
